@@ -79,8 +79,16 @@ func c13Agree(c *core.Ctx, calc string, argClass string, caseKey string, desc in
 }
 
 func c13Slice(c *core.Ctx, shape []int) {
+	c13SliceOn(c, shape, gen.LC)
+	if len(shape) >= 2 {
+		// the calculators know nothing of data order: execution on a column-major tensor has to agree with them as well
+		c13SliceOn(c, shape, gen.LF)
+	}
+}
+
+func c13SliceOn(c *core.Ctx, shape []int, srcLay string) {
 	rank := len(shape)
-	op := c02Source(c, gen.LC, shape, model.TInt16)
+	op := c02Source(c, srcLay, shape, model.TInt16)
 	if op == nil {
 		return
 	}
@@ -114,7 +122,10 @@ func c13Slice(c *core.Ctx, shape []int) {
 			emsg = ""
 		}
 		argClass := strings.Join(uniq(cls), ",")
-		caseKey := fmt.Sprintf("%s%s", shapeStr(shape), specsStr(specs))
+		if srcLay != gen.LC {
+			argClass = srcLay + ":" + argClass
+		}
+		caseKey := fmt.Sprintf("%s%s%s", srcLay, shapeStr(shape), specsStr(specs))
 		desc := map[string]interface{}{"shape": shape, "slices": specsStr(specs)}
 		// Shape.S
 		var ps tensor.Shape
@@ -129,7 +140,11 @@ func c13Slice(c *core.Ctx, shape []int) {
 		}
 		c13Agree(c, "Shape.S", argClass, "Shape.S/"+caseKey, desc, psn, perr, pmsg, es, eerr, emsg)
 		// AP.S on an independently built access pattern
-		ap := tensor.MakeAP(tensor.Shape(model.CopyInts(shape)), defaultStrides(shape, false), 0, 0)
+		order := tensor.DataOrder(0)
+		if srcLay == gen.LF {
+			order = tensor.ColMajor
+		}
+		ap := tensor.MakeAP(tensor.Shape(model.CopyInts(shape)), defaultStrides(shape, srcLay == gen.LF), order, 0)
 		var nap tensor.AP
 		pp, pmsg = core.Catch(func() { nap, _, _, perr = ap.S(model.Size(shape), sl...) })
 		if !pp {
@@ -544,6 +559,22 @@ func c13Reshape(c *core.Ctx, lay string) {
 				}
 				if s := c13Invariant(op.D); s != "" {
 					c.Violation(core.Sig("invariant", "Reshape", lay, s), caseKey, desc, "distinct in-bounds offsets, size=prod(shape)", s)
+				}
+				// the reshaped tensor is an ordinary tensor of the new shape: nothing is pending on it, so UT() leaves it alone and
+				// T() gives what AP.T predicts for the new shape (a transpose that was pending before the reshape must be gone)
+				if len(target) >= 2 {
+					op.D.UT()
+					if e := gen.ReadMatches(op.D, want); e != nil {
+						viol("UT-after-reshape-changed-it", short(want.V), e.Error())
+						continue
+					}
+					if terr := op.D.T(); terr == nil {
+						rev := model.Reversal(len(target))
+						wt := model.Permute(want, rev)
+						if e := gen.ReadMatches(op.D, wt); e != nil {
+							viol("T-after-reshape-wrong", "shape "+shapeStr(wt.Shape)+" "+short(wt.V), e.Error())
+						}
+					}
 				}
 			}
 		}
